@@ -21,7 +21,8 @@ RULE = (
 )
 ASSUMPTIONS = [
     "history shell: PDUs of transactions the handler already closed are kept away from it (what user.py/dest.py tell the user to do)",
-    "a difference is excused only if lengths are equal and the reference checksum of the negotiated type collides",
+    "a difference is excused only if a payload bit-flip fault fired in the run, lengths are equal and the reference checksum of "
+    "the negotiated type collides (null / modular checksum runs never inject corruption, so nothing is ever excused there)",
     "transaction history of the user survives a destination restart; handler state does not",
 ]
 BUDGET = {"quick": 30, "thorough": 900}
@@ -47,7 +48,11 @@ class SuccessOracle(Monitor):
         want = w.src_bytes
         if got == want:
             return
-        if got is not None and len(got) == len(want) and ref_checksum(int(c.ck), got) == ref_checksum(int(c.ck), want):
+        # a genuine checksum collision needs wrong bytes to have been written, which only payload corruption can
+        # cause: without a fired bit-flip fault (always the case for null / modular checksums, whose quantifier
+        # excludes corruption) nothing is excused
+        if (got is not None and len(got) == len(want) and w.link.fired.get("corrupt", 0) > 0
+                and ref_checksum(int(c.ck), got) == ref_checksum(int(c.ck), want)):
             self.collisions += 1
             w.probe("C01.collision_excused")
             return
